@@ -474,8 +474,8 @@ func (f *flattener) candidatesPE(e *Elem, pe, prop string, hints bool) []cand {
 	return out
 }
 
-// winner returns the index of the winning candidate (-1: none) and, when there are at least two
-// candidates, the step that separated the winner from the runner-up.
+// winner returns the index of the winning candidate (-1: none) and, when at least two different
+// declarations compete, the step that separated the winner from the runner-up.
 func winner(cs []cand) (int, string) {
 	if len(cs) == 0 {
 		return -1, ""
@@ -490,8 +490,8 @@ func winner(cs []cand) (int, string) {
 	// runner-up: the best of the others
 	ru := -1
 	for i := range cs {
-		if i == w {
-			continue
+		if i == w || cs[i].d.Val == cs[w].d.Val {
+			continue // the winner itself, or another copy of it (sheet included twice)
 		}
 		if ru < 0 {
 			ru = i
